@@ -122,12 +122,12 @@ def check(model: Model, tier: str):
     from ..normguard import rule_zero_norm, rule_arnoldi_seed
     obs += rule_zero_norm(model, "_division.amen_divide")
     fs = [model.func(a) for a in ANCHORS]
-    exc = {("_division.amen_divide", "time_total"): "verbose timing only", ("_division.amen_divide", "tme_sweep"): "verbose timing only",
-           ("_division.amen_divide", "time_local"): "verbose timing only", ("_division.amen_divide", "swp"): "read only in the verbose report after a zero-sweep run",
-           ("_division.amen_divide", "flag"): "verbose report of the iterative branch only", ("_division.amen_divide", "nit"): "verbose report of the iterative branch only",
-           ("_division.amen_divide", "Op"): "bound in the iterative branch; read under `not use_full` (same condition)",
-           ("_division.amen_divide", "B"): "bound in the direct branch; read under `use_full` (same condition)",
-           ("_division.amen_divide", "r"): "unassigned only for trunc_norm='fro', an option outside the property's quantifier (observed: NameError there)"}
+    exc = {("_division.amen_divide", "sig:=binop | =call:datetime.datetime.now"): "verbose timing only", ("_division.amen_divide", "sig:=binop | =call:datetime.datetime.now"): "verbose timing only",
+           ("_division.amen_divide", "sig:=binop | =call:datetime.datetime.now"): "verbose timing only", ("_division.amen_divide", "sig:for:range(nswp)"): "read only in the verbose report after a zero-sweep run",
+           ("_division.amen_divide", "sig:unpack[1/3]=call:gmres_restart"): "verbose report of the iterative branch only", ("_division.amen_divide", "sig:unpack[2/3]=call:gmres_restart"): "verbose report of the iterative branch only",
+           ("_division.amen_divide", "sig:=call:LinearOp"): "bound in the iterative branch; read under `not use_full` (same condition)",
+           ("_division.amen_divide", "sig:=call:oe.contract | =call:tn.reshape"): "bound in the direct branch; read under `use_full` (same condition)",
+           ("_division.amen_divide", "sig:=call:min | =const | =item | augAdd | for:range(_.shape[1] - 1, 0, -1)"): "unassigned only for trunc_norm='fro', an option outside the property's quantifier (observed: NameError there)"}
     obs += rules.rule_defassign(model, fs, exc)
     obs += rules.rule_unres(model, fs)
     return obs, {"functions": ANCHORS}
